@@ -105,6 +105,9 @@ type vfResult struct {
 	ShrunkFrom int              `json:"shrunk_from,omitempty"`
 	ShrunkRuns int              `json:"shrunk_runs,omitempty"`
 	Panics     int              `json:"panics,omitempty"`
+	LeakedBubble bool           `json:"leaked_bubble,omitempty"`
+	SyncCalls  [][2]int         `json:"sync_calls,omitempty"` // driver calls (cache, primary) per fault-free sync, for enumeration
+	Variant    string           `json:"variant,omitempty"`
 }
 
 // ---- world ------------------------------------------------------------------
@@ -149,6 +152,10 @@ type vfWorld struct {
 	observers   []func(p *vfPrepared, ctx *vfReqCtx, resp *vfResp)
 	stopOnViolation bool
 	loginAttempts   []time.Time
+
+	raw           map[string]*sql.DB
+	offlineDigest string
+	cacheSynced   map[string]bool
 }
 
 var vfRunCounter int
@@ -468,6 +475,7 @@ func (w *vfWorld) teardown() {
 			w.state.cacheDB.Close()
 		}
 	}
+	w.closeRaw()
 	vfUnregisterDB(w.dbKey + "-p")
 	vfUnregisterDB(w.dbKey + "-c")
 	os.RemoveAll(w.dir)
